@@ -22,6 +22,7 @@ import (
 	"errors"
 	"fmt"
 	"github.com/nuts-foundation/go-did/did"
+	"golang.org/x/net/idna"
 	"net"
 	"net/url"
 	"strings"
@@ -36,11 +37,9 @@ var errInvalidWebDIDURL = errors.New("URL does not represent a Web DID")
 // - https://localhost:3000/alice -> did:web:localhost%3A3000:alice
 // - https://nodeA/iam/5/ -> did:web:nodeA:iam:5
 func URLToDID(u url.URL) (*did.DID, error) {
-	path := u.Path
-	if u.RawPath != "" {
-		// In case the path contains encoded characters, RawPath must be used. But it's only populated in this case.
-		path = u.RawPath
-	}
+	// EscapedPath() always yields a valid encoding of the path: RawPath when it is set (and valid), Path re-encoded otherwise.
+	// Using the decoded Path would lose the encoding of characters that are not allowed in a DID (space, non-ASCII, '%', ...).
+	path := u.EscapedPath()
 	path, _ = strings.CutSuffix(path, "/.well-known/did.json")
 	path, _ = strings.CutSuffix(path, "/did.json")
 	parts := strings.Split(path, "/")
@@ -109,9 +108,20 @@ func DIDToURL(id did.DID) (*url.URL, error) {
 	if parsedURL.Host != unescapedID {
 		return nil, fmt.Errorf("invalid did:web: illegal characters in domain name")
 	}
-	parsedIP := net.ParseIP(parsedURL.Hostname())
+	// The HTTP client maps non-ASCII host names to ASCII (IDNA/UTS #46) before connecting. That mapping turns e.g. fullwidth
+	// digits and ideographic full stops into ASCII digits and dots, so the IP address check must be done on the mapped name.
+	hostname := parsedURL.Hostname()
+	if asciiHostname, err := idna.Lookup.ToASCII(hostname); err == nil {
+		hostname = asciiHostname
+	}
+	parsedIP := net.ParseIP(hostname)
 	if parsedIP != nil {
 		return nil, fmt.Errorf("invalid did:web: ID must be a domain name, not IP address")
+	}
+	if hostname := parsedURL.Hostname(); hostname == "" || strings.Contains(hostname, ":") {
+		// e.g. ":8080" or "::::": url.Parse lets these through, but they are not domain names. The HTTP client would connect to
+		// the local system (empty host), or to the unspecified IP address "::" once the empty port is stripped from ":::".
+		return nil, fmt.Errorf("invalid did:web: ID must be a domain name")
 	}
 	return parsedURL, nil
 }
